@@ -238,6 +238,18 @@ Theorem C15_ellen_monitor_sound : forall g, Ellen.tree_ok g = true -> EllenProof
 Proof. exact EllenProofs.tree_ok_T. Qed.
 Print Assumptions C15_ellen_monitor_sound.
 
+(** consequence: at every reachable state (same hypotheses) no key is present twice — two leaves reachable from m_Root
+    with the same key are the same leaf *)
+Theorem C15_ellen_no_duplicate_keys :
+  forall (fuel : nat) (keys : list nat) (ths : list (list Ellen.op)) c (x y : Ellen.ptr),
+    EllenProofs.init_check (Ellen.init keys) = true -> Forall (Forall EllenProofs.op_ok) ths -> (length ths <= 63)%nat ->
+    Conc.reach (Ellen.init_cfg fuel keys ths) c ->
+    EllenProofs.insub (Conc.shared c) Ellen.root x -> EllenProofs.insub (Conc.shared c) Ellen.root y ->
+    ~ EllenProofs.internal (Conc.shared c) x -> ~ EllenProofs.internal (Conc.shared c) y ->
+    Ellen.node_key (Conc.shared c) x = Ellen.node_key (Conc.shared c) y -> x = y.
+Proof. exact EllenProofs.ellen_no_duplicate_keys. Qed.
+Print Assumptions C15_ellen_no_duplicate_keys.
+
 (** erase: the ONE step of erase that changes the tree — the child CAS of help_marked, which replaces the parent p of
     the deleted leaf by the other child of p — preserves the BST invariant, for any directions d, d'.  That its
     precondition holds at every reachable state of programs WITH erase (the DFlag / Mark protocol and the version
